@@ -129,14 +129,20 @@ func mkFin(ctor string) *node {
 	s, dur := ctorLeaf(ctor)
 	n.dur = dur
 	t0 := time.Unix(1_000_000, 0)
-	s.Start(t0)
-	for {
-		tx, ok := s.Next()
-		if !ok {
-			break
+	// a leaf that panics while it is enumerated (a fault of the leaf arithmetic) must not take the generator down:
+	// the case is generated with the offsets seen so far, the real leaf panics again when the case runs, and the
+	// verdict is `fail:panic` with that case as the failing input
+	func() {
+		defer func() { _ = recover() }()
+		s.Start(t0)
+		for len(n.offs) < 1<<20 {
+			tx, ok := s.Next()
+			if !ok {
+				break
+			}
+			n.offs = append(n.offs, int64(tx.Sub(t0)))
 		}
-		n.offs = append(n.offs, int64(tx.Sub(t0)))
-	}
+	}()
 	return n
 }
 
@@ -166,6 +172,10 @@ func genLeaf(r *rand.Rand, o genOpt) *node {
 	case 3:
 		return mkFin(fmt.Sprintf("const:0:%d", []int64{1e9, 5e8, 2e9}[r.Intn(3)]))
 	case 4, 5:
+		if r.Intn(4) == 0 {
+			// fractional rates, below and above one operation per second
+			return mkFin(fmt.Sprintf("const:%s:%d", []string{"0.5", "0.25", "0.75", "1.5", "2.5", "3.3"}[r.Intn(6)], []int64{2e9, 4e9, 5e9}[r.Intn(3)]))
+		}
 		return mkFin(fmt.Sprintf("const:%d:%d", []int{1, 2, 3, 4, 5}[r.Intn(5)], []int64{1e9, 5e8, 2e9}[r.Intn(3)]))
 	case 6:
 		return mkFin(fmt.Sprintf("line:%d:%d:%d", r.Intn(4), 1+r.Intn(5), []int64{1e9, 2e9}[r.Intn(2)]))
@@ -645,6 +655,6 @@ func main() {
 			}
 			return c
 		},
-		Rule: "seq: random schedule trees (depth<=3, <=6 children, once/const/line leaves incl. zero-token parts and far-future tokens, unlimited parts finished/live/not-begun by minutes to hours of margin, instance_step nodes, 0- and 1-child composites) x random Start/Next/Left sequences (started, unstarted = started by the first Next, double start, Start after Next), a quarter through the onFinish callback wrapper; timed: an unlimited part finishes between two phases of the case; conc: 2-3 goroutines released one atomic section at a time in PRNG-chosen (quick) or exhaustively enumerated (thorough) orders through the verif yield points, children may be nested composites, started and unstarted; stress: 2-8 free-running goroutines on nested trees, every Next/Left result checked for linearizability against the flat spec; cbconc: 2-4 goroutines on the onFinish wrapper over small trees, released one action at a time (wrapped call returned / callback entered / callback returned), the callback is held open by the harness while other callers reach the wrapper, a caller blocked in the once-primitive is observed through its goroutine status; seq huge=1: trees whose parts hold 2^31 … 2^62 tokens (once(1<<32), a million operations per second for an hour, instance_step with steps of 2^31), offsets run-length encoded, only Left and a handful of Next are called; lconc: 2-4 goroutines on ONE leaf (once/const/line/unlimited) in a second build of the driver with scheduling points in front of every access of the leaf's Next/Left to shared state (go build -overlay), released one access at a time, compared step by step with the concurrent leaf model and replayed against the atomic flat spec; lnconc: the same build on composites, points of the composites and of the leaves all active, judged like a free run; nconc: 2-3 goroutines on nested composites with the scheduling points of every level active, released one at a time, callers that wait for a lock of an outer level observed through their goroutine status, results judged like a free run. distinct = distinct input line; all are non-trivial",
+		Rule: "seq: random schedule trees (depth<=3, <=6 children, once/const/line leaves incl. zero-token parts and far-future tokens, unlimited parts finished/live/not-begun by minutes to hours of margin, instance_step nodes, 0- and 1-child composites) x random Start/Next/Left sequences (started, unstarted = started by the first Next, double start, Start after Next), a quarter through the onFinish callback wrapper; timed: an unlimited part finishes between two phases of the case; conc: 2-3 goroutines released one atomic section at a time in PRNG-chosen (quick) or exhaustively enumerated (thorough) orders through the verif yield points, children may be nested composites, started and unstarted; stress: 2-8 free-running goroutines on nested trees, every Next/Left result checked for linearizability against the flat spec; cbconc: 2-4 goroutines on the onFinish wrapper over small trees, released one action at a time (wrapped call returned / callback entered / callback returned), the callback is held open by the harness while other callers reach the wrapper, a caller blocked in the once-primitive is observed through its goroutine status; seq huge=1: trees whose parts hold 2^31 … 2^62 tokens (once(1<<32), a million operations per second for an hour, instance_step with steps of 2^31), offsets run-length encoded, only Left and a handful of Next are called; lconc: 2-4 goroutines on ONE leaf (once/const/line/unlimited) in a second build of the driver with scheduling points in front of every access of the leaf's Next/Left to shared state (go build -overlay), released one access at a time, compared step by step with the concurrent leaf model and replayed against the atomic flat spec; lnconc: the same build on composites, points of the composites and of the leaves all active, judged like a free run; nconc: 2-3 goroutines on nested composites with the scheduling points of every level active, released one at a time, callers that wait for a lock of an outer level observed through their goroutine status, results judged like a free run; fac: the tree written as config settings (lists / type: composite / mixed) and decoded by the real config route (core/import hooks, plugin registry, config.DecodeAndValidate) into a FACTORY option (func() (core.Schedule, error), func() core.Schedule) or a plain schedule option, the factory called 2-4 times (all at once or lazily), the ops of the produced schedules interleaved or one schedule after the other, every produced schedule judged on its own against the flat spec of the configured tree; seq big=1: const parts at 40 000-120 000 ops/s and at rates whose period is not a whole number of ns (6000, 7000, 15000, 33333, 70000, fractional rates), 1-60 s, 10^4-2.6*10^5 tokens, drained completely (alone, in lists, step profiles, nested, beside small parts), offsets computed on the Lean side from rate and duration in exact float64 arithmetic, batches of Next calls compared by digest and checked for results earlier than the one before. distinct = distinct input line; all are non-trivial",
 	})
 }
